@@ -63,3 +63,8 @@ chk('C06', 'exploration',
     'back to the real validator (no map-not-found; accepted when every copied value fits the 997/999 definitions). Held on the acknowledgements produced.',
     'Trusted: vlib/ref_ack.py, vlib/ref_envelope.py and the conservative fits_definitions() table in checks/c06.py.',
     'runtime monitoring of generated acknowledgements: independent recount + re-read + re-validation', 'DESIGN.md 5 C06')
+chk('C12', 'exploration',
+    'Metamorphic runtime oracle: each fixture / generated / faulty / mutated document is validated in its original form and in 4 (quick) or 12 (thorough) admissible re-encodings '
+    '(delimiter triples including control characters and newline terminator, five line-break conventions); verdict, error tuples and acknowledgement body must be identical.',
+    'Trusted: vlib/reencode.py (re-encoding through the reference tokenizer); values that are the text of an invalid composite are compared modulo their own component separator.',
+    'metamorphic comparison of monitored runs across re-encodings', 'DESIGN.md 5 C12')
